@@ -54,8 +54,16 @@ FILES = {
         "architecture x of broken is\n  signal s : bit\nbegin\n  b <= a and;\n  s <= undefined_name;\n"
         "end architecture\n\narchitecture y of nothing is begin end;\n-- \u00e4\u00f6 \U0001F600 caf\u00e9\n"),
     "outside.vhd": "entity outside is\nend entity;\n",
+    # extended identifiers with Latin-1 letters (first character of a word / after `_`); stored Latin-1 on disk
+    "lat.vhd": (
+        "library ieee;\nuse ieee.std_logic_1164.all;\n\nentity \\ent_\u00fcbung\\ is\n"
+        "  port (\\clk_\u00fcbertakt\\ : in bit; \\\u00f6l\\ : out bit);\nend entity;\n\n"
+        "architecture rtl of \\ent_\u00fcbung\\ is\n  signal \\sig_\u00e4\\ : bit;\nbegin\n"
+        "  \\\u00f6l\\ <= \\clk_\u00fcbertakt\\;\n  \nend architecture;\n"),
+    "\u00fcber_\u00e4.vhd": "package \\p_\u00e9\\ is\n  constant \\\u00c9clair_\u00f1\\ : bit := '1';\nend package;\n",
 }
-PROJECT_FILES = ["a.vhd", "b.vhd", "err.vhd"]
+FILES["vhdl_ls.toml"] = ('[libraries]\nlib.files = ["a.vhd", "b.vhd", "err.vhd", "lat.vhd", "\u00fcber_\u00e4.vhd"]\n')
+PROJECT_FILES = ["a.vhd", "b.vhd", "err.vhd", "lat.vhd", "\u00fcber_\u00e4.vhd"]
 
 
 def make_workspace(d):
@@ -63,7 +71,7 @@ def make_workspace(d):
     os.makedirs(ws, exist_ok=True)
     for name, text in FILES.items():
         p = os.path.join(ws, name)
-        data = text.encode("latin-1", "replace") if name != "err.vhd" else text.encode("utf-8")
+        data = text.encode("latin-1", "replace") if name not in ("err.vhd", "vhdl_ls.toml") else text.encode("utf-8")
         if not os.path.exists(p) or open(p, "rb").read() != data:
             open(p, "wb").write(data)
     return ws
@@ -103,6 +111,7 @@ URLS = {
     "file:///a/../../b.vhd": True, "file:///x.vhd?query#frag": True, "file://localhost/tmp/x.vhd": True,
     "file:///tmp/\u00e9\u20ac.vhd": True, "http://": False, "12": False, "x": False, "ab/cd.vhd": False,
     "file:///%00x.vhd": True, "urn:isbn:0451450523": True, "file:///C:/x.vhd": True,
+    "file:///vhdl_ls.toml": True, "untitled:vhdl_ls.toml": True,
 }
 WS_URLS = ["a.vhd", "b.vhd", "err.vhd", "outside.vhd", "vhdl_ls.toml", "new_file.vhd", ""]
 
@@ -262,6 +271,8 @@ GOOD_POS = {   # (line, character) on identifiers of the workspace files
     "b.vhd": [(4, 21), (5, 10), (5, 15), (6, 10), (9, 4), (12, 10), (13, 12), (14, 7), (15, 12), (16, 25),
               (22, 2), (23, 22), (23, 40), (2, 10)],
     "err.vhd": [(0, 8), (1, 30), (4, 18), (7, 2), (8, 10), (11, 20), (12, 5), (12, 12)],
+    "lat.vhd": [(10, 2), (8, 2), (9, 5), (10, 10), (10, 11), (3, 10), (4, 12), (4, 40), (8, 12), (0, 8), (7, 22)],
+    "\u00fcber_\u00e4.vhd": [(0, 10), (1, 12), (1, 2), (2, 0)],
     "outside.vhd": [(0, 8), (3, 13), (3, 18), (4, 9), (6, 2)],
     "new_file.vhd": [(0, 8), (3, 13), (3, 18), (4, 9), (6, 2)],
     "zz.vhd": [(0, 8), (3, 13), (3, 18), (4, 9), (6, 2)],
@@ -357,6 +368,76 @@ def pool_document(r):
 
 EDGE_CHARS = [0, 1, 2, 3, 4, 5, 15, 16, 17, 20, 21, 22, 30, 31, 32, 33, 42, 43, 63, 64, 65, 66, 127, 128, 129, 255, 256, 257,
               340, 341, 342, 511, 512, 513, 1000, 1023, 1024, 1025]
+
+
+# ---- the configuration space of the server (vhdl_lang/src/config.rs: every key, legal and illegal values)
+ERROR_CODES = ["syntax_error", "circular_dependency", "type_mismatch", "unused", "unresolved", "duplicate",
+               "unnecessary_work_library", "missing_in_sensitivity_list", "superfluous_in_sensitivity_list",
+               "unassociated", "internal", "related", "void_return", "mismatched_kinds", "invalid_literal"]
+# library names: ASCII, Latin-1 letters first / after `_`, odd but Latin-1.  Not generated: names outside Latin-1
+# (separate finding probe) and `std` (redefining std.standard is C03/F28)
+LIB_NAMES = ["lib", "lib", "lib_\u00f6l", "\u00dcnicode", "l", "defaultlib", "LIB2", "my lib", "1x", "", "ieee",
+             "a\u0000b", "\u00e9_\u00e9_\u00e9", "x_\u00ff", "work", "WORK"]
+FILE_PATTERNS = ["a.vhd", "b.vhd", "err.vhd", "lat.vhd", "\u00fcber_\u00e4.vhd", "outside.vhd", "*.vhd", "sub/*.vhd",
+                 "**/*.vhd", "does_not_exist.vhd", "nope/*.vhd", "[", "***", "{a,b}.vhd", "?.vhd", ".", "..", "sub",
+                 "vhdl_ls.toml", "$HOME/x.vhd", "${VERIF_UNDEFINED_VARIABLE}/a.vhd", "./a.vhd", "../ws/a.vhd",
+                 "%s/a.vhd" % WS, "%s/lat.vhd" % WS, "", "\u20ac.vhd"]
+
+
+def toml_str(x):
+    return json.dumps(x, ensure_ascii=False)
+
+
+def gen_toml(r, want_case=None):
+    """A vhdl_ls.toml over all keys of Config::from_str, with legal and (sometimes) illegal values."""
+    top = []
+    c = r.random()
+    if c < 0.45:
+        top.append("standard = %s" % r.choice(['"1993"', '"2008"', '"2019"', '"93"', '"08"', '"19"', '"2002"', "2008", '""']))
+    case = want_case or (r.choice(["lower", "upper", "pascal", "snake", "upper_snake", "upper_camel", "pascal", "upper_camel",
+                                   "camel", "", 5]) if r.random() < 0.75 else None)
+    if case is not None:
+        top.append("preferred_case = %s" % (toml_str(case) if isinstance(case, str) else case))
+    libs = []
+    if r.random() < 0.93:
+        libs.append("[libraries]")
+        names = r.sample(LIB_NAMES, r.choice([1, 1, 2, 3, 4]))
+        if r.random() < 0.8 and "lib" not in names:
+            names.append("lib")
+        seen = set()
+        for n in names:
+            if n in seen:
+                continue
+            seen.add(n)
+            key = n if re.match(r"^[A-Za-z0-9_-]+$", n) else toml_str(n)
+            files = r.sample(FILE_PATTERNS, r.choice([0, 1, 2, 3, 5]))
+            if n == "lib" and r.random() < 0.8:
+                files += ["lat.vhd", "a.vhd", "b.vhd"]
+            k = r.random()
+            if k < 0.9:
+                libs.append("%s.files = [%s]" % (key, ", ".join(toml_str(f) for f in files)))
+            elif k < 0.95:
+                libs.append("%s.files = %s" % (key, r.choice(['"a.vhd"', "5", "[1, 2]", "true"])))
+            else:
+                libs.append("%s.is_third_party = true" % key)        # no `files`: error
+                continue
+            if r.random() < 0.25:
+                libs.append("%s.exclude = %s" % (key, r.choice(['["err.vhd"]', '["*.vhd"]', '["nonexist*"]', '"err.vhd"', "[]"])))
+            if r.random() < 0.25:
+                libs.append("%s.is_third_party = %s" % (key, r.choice(["true", "false", '"yes"', "1"])))
+    elif r.random() < 0.5:
+        libs.append("libraries = 5")
+    lint = []
+    if r.random() < 0.4:
+        lint.append("[lint]")
+        for code in r.sample(ERROR_CODES + ["not_an_error_code", ""], r.choice([1, 2, 4])):
+            key = code if code else '""'
+            lint.append("%s = %s" % (key, r.choice(['"hint"', '"info"', '"warning"', '"error"', "true", "false", '"fatal"', "5",
+                                                     '"error"', "false"])))
+    text = "\n".join(top + libs + lint) + "\n"
+    if r.random() < 0.04:
+        text = r.choice(["", "[libraries", "\x00", "libraries = {", text + "[libraries]\n"])
+    return text
 
 
 class Gen:
@@ -694,6 +775,95 @@ class Gen:
             out.append({"jsonrpc": "2.0", "id": self.new_id(), "method": m, "params": p})
         return out
 
+    def completion_sweep(self, uris):
+        """completion at positions where names are listed, then completionItem/resolve with the `data` the server
+        itself handed out (${LAST_COMPLETION_DATA:k} is replaced by the driver; decodability is unaffected)."""
+        r = self.r
+        out = []
+        for u in uris:
+            name = u.rsplit("/", 1)[-1]
+            for _ in range(r.choice([1, 2, 3])):
+                l, ch = r.choice(GOOD_POS.get(name, [(0, 8)]))
+                p = {"textDocument": {"uri": u}, "position": {"line": l, "character": ch}}
+                if r.random() < 0.3:
+                    p["context"] = {"triggerKind": r.choice([1, 2, 3])}
+                out.append({"jsonrpc": "2.0", "id": self.new_id(), "method": "textDocument/completion", "params": p})
+                for _ in range(r.choice([0, 1, 2, 4])):
+                    item = {"label": r.choice(["x", "\\clk_\u00fcbertakt\\", "lib_\u00f6l"]),
+                            "data": "${LAST_COMPLETION_DATA:%d}" % r.randrange(0, 40)}
+                    out.append({"jsonrpc": "2.0", "id": self.new_id(), "method": "completionItem/resolve", "params": item})
+        return out
+
+    def config_session(self):
+        """The configuration space: a generated vhdl_ls.toml (or none), nested / HOME / VHDL_LS_CONFIG configurations,
+        command line flags, initializationOptions, rootUri variants; the configuration changes, moves or disappears
+        mid-session; completion / resolve and every other request kind in between."""
+        r = self.r
+        files = {}
+        root_toml = gen_toml(r) if r.random() < 0.8 else None
+        files["vhdl_ls.toml"] = root_toml
+        if r.random() < 0.4:
+            files["sub/vhdl_ls.toml"] = gen_toml(r)
+        if r.random() < 0.5:
+            files["sub/inner.vhd"] = "entity inner is\nend entity;\n"
+        env = {}
+        if r.random() < 0.25:
+            files["home/.vhdl_ls.toml"] = gen_toml(r)
+            env["HOME"] = "%s/home" % WS
+        if r.random() < 0.3:
+            k = r.random()
+            if k < 0.6:
+                files["envcfg.toml"] = gen_toml(r)
+                env["VHDL_LS_CONFIG"] = "%s/envcfg.toml" % WS
+            else:
+                env["VHDL_LS_CONFIG"] = r.choice(["/nonexistent/x.toml", "", "%s" % WS, "%s/a.vhd" % WS])
+        setup = {"$verif": "setup", "files": files, "env": env,
+                 "args": r.choice([[], [], ["--no-lint"], ["--silent"], ["--no-lint", "--silent"]]),
+                 "silent": r.random() < 0.7,
+                 "root": r.choice(["ws"] * 8 + ["none", "nonfile", "sub", "missing-dir", "ws-slash"]),
+                 "init_options": r.choice([None, None, {}, {"nonProjectFiles": "ignore"}, {"nonProjectFiles": "analyze"},
+                                           {"nonProjectFiles": "bogus"}, {"nonProjectFiles": 5}, {"other": [1]}, 7, "x"])}
+        msgs = [setup]
+        lat = "file://%s/lat.vhd" % WS
+        docs = [lat, "file://%s/%s" % (WS, r.choice(PROJECT_FILES)), r.choice(NONPROJ_URIS + ["file://%s/sub/inner.vhd" % WS])]
+        if r.random() < 0.5:
+            msgs.append(self.did_open(lat, FILES["lat.vhd"]))
+        if r.random() < 0.5:
+            msgs.append(self.did_open(docs[2], r.choice([NONPROJ_TEXT, FILES["lat.vhd"], FILES["\u00fcber_\u00e4.vhd"]])))
+        msgs += self.completion_sweep(docs[:2])
+        if r.random() < 0.5:
+            msgs += self.sweep(lat, r.sample(DOC_REQS, 6))
+        tomls = ["file://%s/vhdl_ls.toml" % WS, "file://%s/sub/vhdl_ls.toml" % WS, "file://%s/sub/deeper/vhdl_ls.toml" % WS,
+                 "file://%s/../vhdl_ls.toml" % WS, "file:///vhdl_ls.toml", "file://%s/home/.vhdl_ls.toml" % WS,
+                 "file://%s/VHDL_LS.TOML" % WS, "file://%s/a.vhd" % WS, "untitled:vhdl_ls.toml"]
+        for _round in range(r.choice([1, 2, 2, 3])):
+            # the configuration on disk changes ...
+            k = r.random()
+            if k < 0.3:
+                msgs.append({"$verif": "write", "file": "vhdl_ls.toml", "text": gen_toml(r)})
+            elif k < 0.45:
+                msgs.append({"$verif": "write", "file": "vhdl_ls.toml", "text": None})
+            elif k < 0.6:
+                msgs.append({"$verif": "move", "file": "vhdl_ls.toml", "to": "sub/vhdl_ls.toml"})
+            elif k < 0.7:
+                msgs.append({"$verif": "write", "file": "sub/vhdl_ls.toml", "text": gen_toml(r)})
+            elif k < 0.78:
+                msgs.append({"$verif": "move", "file": "sub/vhdl_ls.toml", "to": "vhdl_ls.toml"})
+            # ... and the client reports it (or something else)
+            for _ in range(r.choice([1, 1, 2])):
+                if r.random() < 0.7:
+                    evs = [{"uri": r.choice(tomls[:3] * 3 + tomls), "type": r.choice([1, 2, 3])} for _ in range(r.choice([1, 1, 2]))]
+                    msgs.append({"jsonrpc": "2.0", "method": "workspace/didChangeWatchedFiles", "params": {"changes": evs}})
+                else:
+                    msgs.append(self.reload(r.choice(RELOADS[:3])))
+            msgs += self.completion_sweep([lat] + r.sample(docs, 1))
+            msgs.append({"jsonrpc": "2.0", "id": self.new_id(), "method": "workspace/symbol",
+                         "params": {"query": r.choice(["", "ent", "\u00fc", "clk"])}})
+            if r.random() < 0.5:
+                msgs += self.sweep(r.choice(docs), r.sample(DOC_REQS, 5))
+            msgs += [self.message() for _ in range(r.randrange(0, 4))]
+        return msgs
+
     def history_session(self):
         r = self.r
         msgs = []
@@ -862,19 +1032,109 @@ def drive(vbin, ws, msgs, mode, caps_variant=0):
             shutil.rmtree(private, ignore_errors=True)
 
 
-def act(ws, msg):
-    """Driver action between messages: rewrite / delete a file of the (private) workspace."""
-    path = os.path.join(ws, os.path.basename(msg["file"]))
-    if msg.get("text") is None:
+def ws_path(ws, rel):
+    path = os.path.normpath(os.path.join(ws, rel))
+    if not (path + "/").startswith(os.path.dirname(ws) + "/"):
+        raise AssertionError("driver action outside the private workspace: %r" % rel)
+    return path
+
+
+def write_file(ws, rel, text):
+    path = ws_path(ws, rel)
+    if text is None:
         if os.path.exists(path):
             os.remove(path)
-    else:
-        with open(path, "w", encoding="utf-8") as f:
-            f.write(msg["text"])
+        return
+    os.makedirs(os.path.dirname(path), exist_ok=True)
+    with open(path, "w", encoding="utf-8") as f:
+        f.write(text.replace(WS, ws))
+
+
+def act(ws, msg):
+    """Driver action between messages: rewrite / delete / move a file of the (private) workspace."""
+    if msg["$verif"] == "write":
+        write_file(ws, msg["file"], msg.get("text"))
+    elif msg["$verif"] == "move":
+        src, dst = ws_path(ws, msg["file"]), ws_path(ws, msg["to"])
+        if os.path.exists(src):
+            os.makedirs(os.path.dirname(dst), exist_ok=True)
+            os.replace(src, dst)
+    elif msg["$verif"] != "setup":
+        raise AssertionError("unknown driver action %r" % (msg,))
+
+
+class LS2(lsp.LS):
+    """vlib.lsp.LS with control over command line, environment and the initialize parameters."""
+
+    def __init__(self, binpath, root, silent=True, extra_args=(), env=None):
+        args = [binpath] + (["--silent"] if silent else []) + ["-l", lsp.VHDL_LIBRARIES]
+        for a in extra_args:
+            if a not in args:
+                args.append(a)
+        self.root = root
+        self.p = subprocess.Popen(args, stdin=subprocess.PIPE, stdout=subprocess.PIPE, stderr=subprocess.PIPE,
+                                  cwd=root, env=env)
+        self.q = lsp.queue.Queue()
+        self.id = 0
+        self.log = []
+        self.stderr_buf = []
+        threading.Thread(target=self._rd, daemon=True).start()
+        threading.Thread(target=self._rd_err, daemon=True).start()
+
+    def initialize2(self, caps, root_kind, init_options, timeout=180.0):
+        params = {"processId": None, "capabilities": caps}
+        root_uri = {"ws": "file://" + self.root, "ws-slash": "file://" + self.root + "/", "none": None,
+                    "nonfile": "untitled:workspace", "sub": "file://" + self.root + "/sub",
+                    "missing-dir": "file://" + self.root + "/does/not/exist"}[root_kind]
+        if root_kind != "none" or hash(self.root) % 2:
+            params["rootUri"] = root_uri
+        if init_options is not None:
+            params["initializationOptions"] = init_options
+        resp, others = self.call("initialize", params, timeout)
+        self.notify("initialized", {})
+        others += self.sync(timeout)
+        return resp, others
+
+
+LAST_DATA = re.compile(r"^\$\{LAST_COMPLETION_DATA:(\d+)\}$")
+
+
+def fill_completion_data(v, datas):
+    if isinstance(v, str):
+        m = LAST_DATA.match(v)
+        if m:
+            k = int(m.group(1))
+            return datas[k % len(datas)] if datas else k
+        return v
+    if isinstance(v, list):
+        return [fill_completion_data(x, datas) for x in v]
+    if isinstance(v, dict):
+        return {k: fill_completion_data(x, datas) for k, x in v.items()}
+    return v
+
+
+def remember_completion(got, datas):
+    for m in got:
+        r = m.get("result") if isinstance(m, dict) else None
+        items = r.get("items") if isinstance(r, dict) else (r if isinstance(r, list) else None)
+        if isinstance(items, list) and items and all(isinstance(i, dict) and "label" in i for i in items[:3]):
+            ds = [i.get("data") for i in items if isinstance(i, dict) and "data" in i]
+            if ds:
+                datas[:] = ds
 
 
 def _drive(vbin, ws, msgs, mode, caps):
-    ls = lsp.LS(vbin, ws)
+    setup = msgs[0] if msgs and msgs[0].get("$verif") == "setup" else None
+    datas = []
+    if setup:
+        for rel, text in setup.get("files", {}).items():
+            write_file(ws, rel, text)
+        os.makedirs(os.path.join(ws, "sub"), exist_ok=True)
+        env = dict(os.environ)
+        env.update({k: v.replace(WS, ws) for k, v in setup.get("env", {}).items()})
+        ls = LS2(vbin, ws, silent=setup.get("silent", True), extra_args=setup.get("args", ()), env=env)
+    else:
+        ls = lsp.LS(vbin, ws)
     res = {"responses": [], "died_at": None, "per_step": [], "exit": None, "why": "", "init_failed": False}
     nsync = [0]
     nonnull = [0]
@@ -887,7 +1147,10 @@ def _drive(vbin, ws, msgs, mode, caps):
         return [m for m in others if is_response(m)]
 
     try:
-        ls.initialize(caps=caps)
+        if setup:
+            ls.initialize2(caps, setup.get("root", "ws"), setup.get("init_options"))
+        else:
+            ls.initialize(caps=caps)
     except lsp.ServerDied as ex:
         res["init_failed"] = True
         res["why"] = str(ex)
@@ -902,8 +1165,9 @@ def _drive(vbin, ws, msgs, mode, caps):
                     res["per_step"].append([])
                     continue
                 try:
-                    ls.send_raw(msg)
+                    ls.send_raw(fill_completion_data(msg, datas))
                     got = barrier()
+                    remember_completion(got, datas)
                 except lsp.ServerDied as ex:
                     res["died_at"] = k
                     res["why"] = str(ex)
@@ -919,7 +1183,7 @@ def _drive(vbin, ws, msgs, mode, caps):
                         got += barrier()        # everything before the file change must have been processed
                         act(ws, msg)
                     else:
-                        ls.send_raw(msg)
+                        ls.send_raw(fill_completion_data(msg, datas))
                 got += barrier()
                 res["responses"] = [resp_pair(m, nonnull) for m in got]
             except lsp.ServerDied as ex:
@@ -1133,7 +1397,7 @@ def main(tier, replay=None):
         sessions.append({"tag": "replay", "messages": rp["messages"], "mode": rp.get("mode", "step"),
                          "caps": rp.get("caps", 0)})
     else:
-        for k, c in enumerate(load_corpus()):
+        for k, c in enumerate([] if os.environ.get("VERIF_C15_NO_CORPUS") else load_corpus()):   # (development aid)
             sessions.append({"tag": "corpus:%s" % c.get("name", k), "messages": c["messages"], "mode": "step",
                              "caps": c.get("caps", 0)})
         n_sessions, n_msgs = (2400, 40) if tier == "thorough" else (150, 40)
@@ -1141,8 +1405,10 @@ def main(tier, replay=None):
             g = Gen(seed() * 1000003 + k)
             mode = "pipelined" if k % 4 == 3 else "step"
             hist = k % 5 == 2       # remembered documents, project reload, every request kind on them
-            sessions.append({"tag": "gen:%d%s" % (k, "h" if hist else ""),
-                             "messages": g.history_session() if hist else g.session(n_msgs), "mode": mode,
+            conf = k % 5 == 4       # the configuration space of the server
+            sessions.append({"tag": "gen:%d%s" % (k, "h" if hist else "c" if conf else ""),
+                             "messages": g.history_session() if hist else g.config_session() if conf else g.session(n_msgs),
+                             "mode": mode,
                              "caps": 1 if k % 7 == 6 else 0})
 
     # model predictions (messages + shutdown + exit)
@@ -1156,7 +1422,7 @@ def main(tier, replay=None):
     t0 = _time.time()
     # implementation runs, in parallel
     workers = min(14, max(2, (os.cpu_count() or 4) - 2))
-    stats = {"requests": 0, "notifications": 0, "client_responses": 0, "driver_actions": 0, "history_sessions": 0, "invalid_params": 0, "method_not_found": 0,
+    stats = {"requests": 0, "notifications": 0, "client_responses": 0, "driver_actions": 0, "history_sessions": 0, "config_sessions": 0, "invalid_params": 0, "method_not_found": 0,
              "ok": 0, "ok_with_nonempty_result": 0, "undecodable_notifications": 0, "sessions_step": 0,
              "sessions_pipelined": 0}
     lock = threading.Lock()
@@ -1217,7 +1483,9 @@ def main(tier, replay=None):
             pairs = models[i][0]
             stats["ok_with_nonempty_result"] += out.get("nonnull_ok", 0)
             stats["sessions_" + ("step" if s["mode"] == "step" else "pipelined")] += 1
-            if s["tag"].endswith("h") or any("$verif" in m for m in s["messages"]):
+            if s["messages"] and s["messages"][0].get("$verif") == "setup":
+                stats["config_sessions"] += 1
+            elif s["tag"].endswith("h") or any("$verif" in m for m in s["messages"]):
                 stats["history_sessions"] += 1
             for msg in s["messages"]:
                 c = classify(msg)
